@@ -51,7 +51,8 @@ def cases(draw, name):
     info = core.load_model_info(name)
     src = draw(st.sampled_from(["random", "random", "default", "perturbed", "perturbed", "wide"]))
     if src == "random" and info.random is not None:
-        pars = c14.random_pars(info, draw(st.integers(0, 10 ** 6)))
+        pars = None       # drawn after everything else (see c14.mixed_seed)
+        rseed = draw(st.integers(0, 10 ** 6))
     elif src == "perturbed":
         pars = {}
         used = set()
@@ -82,8 +83,6 @@ def cases(draw, name):
     else:
         pars = {}
         src = "default"
-    pars.pop("scale", None)
-    pars.pop("background", None)
     nmodes = len(info.radius_effective_modes or [])
     # relative widths of size distributions are pure numbers: they stay as they are under the rescaling, and every
     # relation must hold for the dispersity average too.  Only parameters whose limits are scale-invariant (0 or
@@ -97,11 +96,17 @@ def cases(draw, name):
             spec = draw(S.pd_spec(True, max_npts=15 if c01.eval_time(name) < 2e-4 else 3, allow_cut=False))
             pd.update({pname + "_pd": spec["width"], pname + "_pd_n": spec["n"], pname + "_pd_nsigma": spec["nsigma"],
                        pname + "_pd_type": spec["type"]})
-    return {"model": name, "pars": pars, "source": src, "pd": pd,
+    case = {"model": name, "source": src, "pd": pd,
             "lam": S.sig(10 ** draw(st.floats(math.log10(0.3), math.log10(3.0))), 5),
             "mu": S.sig(10 ** draw(st.floats(math.log10(0.3), math.log10(3.0))), 5),
             "q": draw(S.q1d(3, 5, lo=-3.0, hi=-0.3)),
             "mode": draw(st.integers(1, nmodes)) if nmodes else 0}
+    if pars is None:
+        pars = c14.random_pars(info, c14.mixed_seed(rseed, sorted(pd.items()), case["lam"], case["q"], case["mode"]))
+    pars.pop("scale", None)
+    pars.pop("background", None)
+    case["pars"] = pars
+    return case
 
 
 def _get(name):
